@@ -15,7 +15,7 @@ THEOREMS = ['C05_spec_ok', 'C05_depinfo_roundtrip', 'C05_depinfo_lossless', 'C05
             'C05_args_injective_guarded',
             'C05_order_insensitive', 'C05_excluded_args_unhashed', 'C05_shape_table', 'C05_shape_table_ok_iff',
             'C05_accepted_shape', 'C05_staticlibs_lookup', 'C05_staticlib_search_order', 'C05_staticlib_alt_spelling_refuted',
-            'C05_staticlib_modifier_hashed']
+            'C05_staticlib_modifier_hashed', 'C05_compile_command_colour', 'C05_sysroot_libs_complete']
 ASSUMPTIONS = [
     'sccache is REQUIRED to re-read every input file (sources, included files, --extern rlibs, static libraries, target json) on every request: a replacement with the same path, size and modification time must still be seen (monitored in-process by keypair same_stamp and end to end by the sm_* steps; no theorem depends on file metadata)',
     'named assumption about rustc (observed with rustc 1.95, unix target): for `-l static[:modifiers]=NAME` the archive bundled is libNAME.a from the FIRST of the `-L native=DIR` / `-L all=DIR` / `-L DIR` directories, in command-line order, that contains it (Model/RustArgs.v rustc_static_pick)',
@@ -450,7 +450,8 @@ def classify_staticlib(case, out, v):
 # ------------------------------------------------------------------------------------------------ key / keypair
 
 CONTENTS = [b'', b'pub fn f() {}\n', b'pub fn f() { }\n', b'mod a;\n', b'x', b'{"llvm-target": "x"}', b'{"llvm-target": "y"}',
-            b'rlib-v1', b'rlib-v2', b'data1', b'data2', b'pub fn g() {}\n', b'mod b;\n']
+            b'rlib-v1', b'rlib-v2', b'data1', b'data2', b'pub fn g() {}\n', b'mod b;\n',
+            b'line1\nline2\n', b'line1\r\nline2\r\n', b'line1\r\nline2\n', b'pub fn f() {}\r\n']
 _DIGESTS = {}
 
 
@@ -593,6 +594,7 @@ def mutate(rng, r):
     if r.get('two_dirs'):
         kinds += ['static_picked_content', 'static_picked_content', 'static_shadowed_content', 'static_dirs_swap', 'static_dirs_swap']
     kinds += ['envdep_class'] * 4 + ['arg_perm'] * 4 + ['same_stamp'] * 5 + ['content_swap'] * 4
+    kinds += ['line_endings'] * 3 + ['colour'] * 3
     if b'spec.json' in argv:
         kinds += ['target_content']
     k = rng.choice(kinds)
@@ -680,6 +682,27 @@ def mutate(rng, r):
     elif k == 'static_dirs_swap':
         i = argv.index(b'native=zz_own')
         argv[i], argv[i + 2] = argv[i + 2], argv[i]
+    elif k == 'line_endings':
+        # a file of the dep-info list changes ONLY in its line endings (LF <-> CRLF, all or some lines): other bytes, other key
+        r0 = clone(r)
+        f = rng.choice([b'data/notice.txt', b'src/a.rs'])
+        lf, crlf = (CONTENTS[13], rng.choice([CONTENTS[14], CONTENTS[15]])) if f.endswith(b'.txt') else (CONTENTS[1], CONTENTS[16])
+        r0['files'][f] = lf
+        r0['srcs'] = [x for x in r0['srcs'] if x != f] + [f]
+        m = clone(r0)
+        m['files'][f] = crlf
+        if rng.chance(1, 2):
+            r0, m = m, r0
+        return 'line_endings:' + ('included' if f.endswith(b'.txt') else 'module'), exp, r0, m
+    elif k == 'colour':
+        # --color is not part of the key (parse_arguments drops it), so it must not change what a miss compiles and stores
+        r0 = clone(r)
+        a, b = rng.choice([([], [b'--color', b'never']), ([b'--color=always'], [b'--color=never']), ([b'--color', b'never'], [b'--color', b'auto']),
+                           ([], [b'--color=always']), ([b'--color=never'], [])])
+        pos = argv.index(b'--out-dir')
+        r0['argv'] = argv[:pos] + a + argv[pos:]
+        m['argv'] = argv[:pos] + b + argv[pos:]
+        return 'colour', 'same', r0, m
     elif k == 'same_stamp':
         # one input file of some class replaced by other content of the SAME size, with the SAME (old) mtime and path,
         # inside one process: the inputs must be re-read on every request
@@ -829,6 +852,61 @@ def mon_cwdpair(case, out):
     return []
 
 
+def appended_options(res):
+    """what sccache itself appends to the compile command: the arguments after the request's own (flag, value) pairs"""
+    pairs, cargs = res[5], res[6]
+    flat = []
+    for p in pairs:
+        flat.append(p[0])
+        if p[1]:
+            flat.append(p[1][0])
+    if cargs[:len(flat)] == flat:
+        return cargs[len(flat):]
+    # (a trailing `-C` prints as one token) fall back to the colour options anywhere in the command
+    out = []
+    for i, a in enumerate(cargs):
+        if a == b'--color' and i + 1 < len(cargs):
+            out += [a, cargs[i + 1]]
+        elif a.startswith(b'--color='):
+            out.append(a)
+    return out
+
+
+SO_NAMES = [b'librustc_driver-6108105cd7e839cf.so', b'libstd-1.so', b'libLLVM.so.22.1-rust-1.95.0-stable', b'libLLVM-22-rust.so', b'notes.txt',
+            b'rustlib', b'libtest-9.so', b'x.so', b'.so', b'a.SO', b'lib.so.so', b'so']
+
+
+def gen_sysroot(rng, n):
+    out = []
+    for _ in range(n):
+        names = rng.shuffle(SO_NAMES)[:rng.range(1, 7)]
+        es = []
+        for nm in names:
+            kind = rng.weighted([(b'file', 4), (b'symfile', 4), (b'dir', 1), (b'symdir', 1), (b'dangling', 1)])
+            if kind in (b'file', b'symfile'):
+                c = rng.choice(CONTENTS[:13])
+                es.append([nm, kind, digests()[c][0], c])
+            else:
+                es.append([nm, kind, b'', b''])
+        out.append([es])
+    return out
+
+
+def mon_sysroot(case, out):
+    """every *.so entry of <sysroot>/lib that is a file or a symbolic link to a file is part of "the compiler itself" """
+    if not isinstance(out, list) or out[:1] != [b'ok']:
+        return ['Rust::new / the pre-image could not be read: %r' % (out[:1],)]
+    want = sorted(e[2] for e in case[0] if e[1] in (b'file', b'symfile') and os.path.splitext(e[0])[1] == b'.so' and not (e[0].startswith(b'.') and e[0].count(b'.') == 1))
+    got = sorted(out[1])
+    vs = []
+    for e in case[0]:
+        if e[1] in (b'file', b'symfile') and e[2] in want and e[2] not in got:
+            vs.append('the compiler library %s (%s) in <sysroot>/lib is not hashed: another build of it would keep every key' % (e[0].decode(), e[1].decode()))
+    if not vs and got != want:
+        vs.append('digests hashed for the compiler %r differ from the shared libraries present %r' % (got, want))
+    return vs
+
+
 def mon_key_one(res):
     vs = []
     if not isinstance(res, list) or not res:
@@ -840,6 +918,11 @@ def mon_key_one(res):
             vs.append('the recorded pre-image does not hash to the returned key')
         if res[2] != 1:
             vs.append('the pre-image does not end with hash(cwd) ++ hash(rustc -vV)')
+        if len(res) > 6:
+            has_json = any(p[0] == b'--json' for p in res[5])
+            want = [] if has_json else [b'--color', b'always']
+            if appended_options(res) != want:
+                vs.append('the compile command ends with %r, not the constant %r: a colour option that is not in the key' % (appended_options(res), want))
     return vs
 
 
@@ -855,6 +938,11 @@ def mon_keypair(case, out):
     vs = mon_key_one(out[1]) + mon_key_one(out[2])
     label, exp = case[2][0].decode(), case[2][1]
     both_ok = out[1][:1] == [b'ok'] and out[2][:1] == [b'ok']
+    if both_ok and out[0] == 1 and len(out[1]) > 6 and len(out[2]) > 6:
+        sa, sb_ = appended_options(out[1]), appended_options(out[2])
+        if sa != sb_:
+            vs.append('two requests with ONE key would compile (and store diagnostics) with different options appended by sccache: '
+                      '%r vs %r (%s)' % (sa, sb_, label))
     if both_ok:
         if exp == b'diff' and out[0] == 1:
             vs.append('two requests that differ in a hashed input (%s) got the same key' % label)
@@ -998,6 +1086,12 @@ def legs(tier):
             nontrivial=lambda c, o: isinstance(o, list) and len(o) == 3 and o[1][:1] == [b'ok'] and o[2][:1] == [b'ok'],
             rule='pairs of requests in one working directory that differ by one mutation out of 24 classes; the monitor demands '
                  'different keys for a changed hashed input and equal keys for reorderings / unhashed inputs'),
+        Leg('sysroot', lambda rng, t: gen_sysroot(rng, 4000 if big else 300), monitor=mon_sysroot,
+            nontrivial=lambda c, o: isinstance(o, list) and o[:1] == [b'ok'] and len(o[1]) >= 1,
+            stats=lambda c, o: ['kinds=' + '+'.join(sorted(set(e[1].decode() for e in c[0])))],
+            rule='the real Rust::new on a scratch <sysroot>/lib with 1-6 entries (regular file / symlink to file / directory / '
+                 'symlink to directory / dangling link; names with and without the .so extension); the digests recorded for the '
+                 'compiler are read off the pre-image; every *.so that resolves to a file must be among them'),
         Leg('cwdpair', lambda rng, t: gen_cwdpair(rng, 6000 if big else 400), monitor=mon_cwdpair,
             nontrivial=lambda c, o: isinstance(o, list) and len(o) == 3 and o[1] == 1,
             stats=lambda c, o: [c[3][0].decode()],
@@ -1022,7 +1116,7 @@ def search_on_impl(rep, known):
     from ..prng import Rng
     exe = pipeline.harness_bin(HARNESS_BIN)
     for leg in legs(rep.tier):
-        if leg.name not in ('envdep', 'depinfo', 'keypair', 'args', 'key', 'staticlib', 'cwdpair'):
+        if leg.name not in ('envdep', 'depinfo', 'keypair', 'args', 'key', 'staticlib', 'cwdpair', 'sysroot'):
             continue
         rng = Rng(rep.seed).fork(ID + ':' + leg.name)
         cases = pipeline.corpus_cases(ID, leg.name) + list(leg.gen(rng, rep.tier))
